@@ -141,6 +141,9 @@ void vr_case(uint64_t seed, uint64_t idx, int profile)
     uint64_t per = mp->incr_num;
     static const uint64_t chunk_targets[] = { 1, 2, 3, 63, 64, 65, 66, 128, 129, 130 };
     uint64_t ct = profile == 1 ? chunk_targets[3 + vr_below(&r, 7)] : chunk_targets[vr_below(&r, 4)];
+    /* one case in three of the many-chunk profile goes on past the later growths of the chunk list (whatever its growth policy: +64 each time gives
+     * 192, 256, 320 ..., doubling gives 256, 512) */
+    if (profile == 1 && vr_chance(&r, 1, 3)) { static const uint64_t far_targets[] = { 191, 192, 193, 194, 255, 256, 257, 258, 300, 320, 321, 385, 513, 700 }; ct = far_targets[vr_below(&r, 14)]; VR_CNT("cases_crossing_later_chunk_list_growths"); }
     if (profile == 0 && per * ct > 40000) ct = 1;
     size_t target = (size_t)(per * (ct - 1) + 1 + vr_below(&r, per));
     if (target > 600000) target = 600000;
